@@ -833,12 +833,16 @@ def units(tier):
                 us.append(_u('resync/%s/v4/live/u1d2/%s' % (tag, short(k)), (), fams=(V4,), aro=aro, cuts=LIVE_CUTS, n_up=1, n_down=2, jmax=4,
                              up_kinds=none4, first_up=k, down_kinds=KINDS4, weight=300, max_seconds=2400))
             # a second loss: attempt 1 and attempt 2 are both lost (any pair of cut points), attempt 3 is judged
+            up2 = ('none', 'announce:y', 'withdraw')
             for c in EST_CUTS + LIVE_CUTS:
                 for gname, later in (('then-establishment', EST_CUTS), ('then-live', LIVE_CUTS)):
-                    us.append(_u('resync/%s/v4/two-losses/%s/%s' % (tag, c, gname), ('operation-while-down',), fams=(V4,), aro=aro, cuts=(c,), later_cuts=later,
-                                 losses=2, n_up=1, n_up_later=0, n_down=1, jmax=4, up_kinds=('none', 'announce:y', 'withdraw'),
-                                 down_kinds=('none', 'announce:x', 'announce:y', 'withdraw'), later_down_kinds=none4, up_at=('mid', 'idle'),
-                                 weight=250, max_seconds=2400))
+                    # the largest ones are partitioned by the operation that arrives while up (load balance only)
+                    parts = [(None, '')] if not (c == 'write' and gname == 'then-live') else [(k, '/' + short(k)) for k in up2]
+                    for first, suffix in parts:
+                        us.append(_u('resync/%s/v4/two-losses/%s/%s%s' % (tag, c, gname, suffix), ('operation-while-down',), fams=(V4,), aro=aro,
+                                     cuts=(c,), later_cuts=later, losses=2, n_up=1, n_up_later=0, n_down=1, jmax=4, up_kinds=up2, first_up=first,
+                                     down_kinds=('none', 'announce:x', 'announce:y', 'withdraw'), later_down_kinds=none4, up_at=('mid', 'idle'),
+                                     weight=250, max_seconds=2400))
         us.append(_u('resync/kept/v4/down3/dom4', (), fams=(V4,), aro=True, cuts=EST_CUTS, n_up=0, n_down=3, up_kinds=(), dom=4,
                      down_kinds=KINDS4, weight=200))
         us.append(_u('resync/off/v4/down3', (), fams=(V4,), aro=False, cuts=('refused',), n_up=0, n_down=3, up_kinds=(),
